@@ -2,32 +2,93 @@ package server
 
 import (
 	"context"
+	"crypto/sha256"
+	"encoding/json"
+	"fmt"
+	"os"
+	"runtime"
+	"strings"
 	"testing"
 	"time"
 
 	"github.com/ollama/ollama/api"
 )
 
-// C03 oracle: no registry response crashes the server. opts.digest is a layer digest taken
-// verbatim from the manifest the registry served (PullModel passes layer.Digest). The witness
-// gives the digest; the blob store is an empty temporary directory, the registry address is
-// unroutable (127.0.0.1:1) so that an accepted, absent digest fails fast instead of downloading.
+// C15 oracle: "no request makes the server panic". Replays the two schedules behind
+// downloadBlob#assert.9 / #assert.10 (`download.CancelFunc != nil` when Wait is called):
+//
+//	created: (assert.9) a pull whose context is already cancelled resumes a partial download
+//	         (Prepare needs no request); Wait returns before the goroutine started by
+//	         `go download.Run` is scheduled (GOMAXPROCS=1) and its release() calls b.CancelFunc.
+//	joined:  (assert.10) the download was stored in blobDownloadManager by another pull that is
+//	         still inside Prepare; this pull joins it with a cancelled context.
 func TestGovcReplay(t *testing.T) {
-	w := govcLoadWitness()
-	digest := w.Str("opts.digest")
+	obl := ""
+	if p := os.Getenv("GOVC_WITNESS"); p != "" {
+		if data, err := os.ReadFile(p); err == nil {
+			var doc struct {
+				Obligation string `json:"obligation"`
+			}
+			json.Unmarshal(data, &doc)
+			obl = doc.Obligation
+		}
+	}
+	if obl == "" || strings.Contains(obl, "assert.9@") {
+		t.Run("created", replayDownloadReleaseBeforeRun)
+	}
+	if obl == "" || strings.Contains(obl, "assert.10@") {
+		t.Run("joined", replayDownloadJoinerDuringPrepare)
+	}
+}
+
+func replayDownloadReleaseBeforeRun(t *testing.T) {
+	defer runtime.GOMAXPROCS(runtime.GOMAXPROCS(1))
 	t.Setenv("OLLAMA_MODELS", t.TempDir())
-	ctx, cancel := context.WithTimeout(context.Background(), 20*time.Second)
-	defer cancel()
+	digest := fmt.Sprintf("sha256:%x", sha256.Sum256([]byte("x")))
+	fp, err := GetBlobsPath(digest)
+	if err != nil {
+		t.Fatal(err)
+	}
+	part := blobDownloadPart{N: 0, Offset: 0, Size: 10}
+	bts, _ := json.Marshal(&part)
+	if err := os.WriteFile(fp+"-partial-0", bts, 0o644); err != nil {
+		t.Fatal(err)
+	}
+	ctx, cancel := context.WithCancel(context.Background())
+	cancel()
 	defer func() {
 		if r := recover(); r != nil {
-			t.Fatalf("REPRODUCED: downloadBlob panicked on manifest layer digest %q: %v", digest, r)
+			t.Fatalf("VIOLATION C15: downloadBlob panicked: %v", r)
 		}
 	}()
-	_, err := downloadBlob(ctx, downloadOpts{
-		mp:      ModelPath{ProtocolScheme: "http", Registry: "127.0.0.1:1", Namespace: "library", Repository: "m", Tag: "latest"},
-		digest:  digest,
-		regOpts: &registryOptions{Insecure: true},
-		fn:      func(api.ProgressResponse) {},
-	})
-	t.Logf("downloadBlob(%q) returned %v", digest, err)
+	_, err = downloadBlob(ctx, downloadOpts{mp: ParseModelPath("example.com/library/m:latest"), digest: digest, regOpts: &registryOptions{}, fn: func(api.ProgressResponse) {}})
+	t.Logf("downloadBlob: %v", err)
+	// let the cancelled download goroutine finish before the temporary store is removed
+	for range 300 {
+		if _, ok := blobDownloadManager.Load(digest); !ok {
+			break
+		}
+		time.Sleep(10 * time.Millisecond)
+	}
+}
+
+func replayDownloadJoinerDuringPrepare(t *testing.T) {
+	t.Setenv("OLLAMA_MODELS", t.TempDir())
+	digest := fmt.Sprintf("sha256:%x", sha256.Sum256([]byte("y")))
+	fp, err := GetBlobsPath(digest)
+	if err != nil {
+		t.Fatal(err)
+	}
+	// exactly what downloadBlob of the first pull has done when it enters Prepare
+	blobDownloadManager.LoadOrStore(digest, &blobDownload{Name: fp, Digest: digest})
+	defer blobDownloadManager.Delete(digest)
+	ctx, cancel := context.WithCancel(context.Background())
+	cancel()
+	defer func() {
+		if r := recover(); r != nil {
+			t.Fatalf("VIOLATION C15: downloadBlob (joining pull) panicked: %v", r)
+		}
+	}()
+	_, err = downloadBlob(ctx, downloadOpts{mp: ParseModelPath("example.com/library/m:latest"), digest: digest, regOpts: &registryOptions{}, fn: func(api.ProgressResponse) {}})
+	t.Logf("downloadBlob: %v", err)
 }
